@@ -800,3 +800,159 @@ def c20(run):
                 "position, out-of-range index, out-of-range value, trailing token) and every byte string over the alphabet '012 -\\n.a' up to "
                 "length %d: the reader must answer err:INPUT exactly when the format model rejects the text, else the same matrix. "
                 "Non-trivial = judged ok; distinct by op line." % L, extra={"exhaustive": True})
+
+
+# ------------------------------------------------------------------------------------------------------------------
+# C12 k-sums
+# ------------------------------------------------------------------------------------------------------------------
+
+def gf2_rank(rows):
+    """rows: list of int bitmasks"""
+    rows = list(rows); r = 0
+    while rows:
+        p = rows.pop()
+        if p:
+            r += 1
+            lb = p & -p
+            rows = [x ^ p if x & lb else x for x in rows]
+    return r
+
+
+def block_ranks(m, n, e, rf, cf):
+    """GF(2) ranks of the off-diagonal blocks B (first rows x second cols) and C (second rows x first cols)"""
+    B = []; C = []
+    for i in range(m):
+        b = 0
+        for j in range(n):
+            if e[i * n + j] and rf[i] != cf[j]:
+                b |= 1 << j
+        (B if rf[i] == 0 else C).append(b)
+    return gf2_rank(B), gf2_rank(C)
+
+
+def rand_sum_matrix(rng, kind, ternary):
+    """matrix [[A, a b^T],[d c^T, D]] (or concentrated rank 2) with a known partition, lines shuffled"""
+    vals = (1, -1) if ternary else (1,)
+    m1, n1, m2, n2 = rng.randint(1, 3), rng.randint(1, 3), rng.randint(1, 3), rng.randint(1, 3)
+    def rv(k, nz=True):
+        v = [rng.choice(vals) if rng.random() < 0.7 else 0 for _ in range(k)]
+        if nz and not any(v): v[rng.randrange(k)] = rng.choice(vals)
+        return v
+    A = [rv(n1, False) for _ in range(m1)]; D = [rv(n2, False) for _ in range(m2)]
+    a, b, c, d = rv(m1), rv(n2), rv(n1), rv(m2)
+    if kind == "2":
+        if rng.random() < 0.5: a = [0] * m1
+        else: d = [0] * m2
+    B = [[a[i] * b[j] for j in range(n2)] for i in range(m1)]
+    C = [[d[i] * c[j] for j in range(n1)] for i in range(m2)]
+    if kind == "3":
+        c2, d2 = rv(n1), rv(m2)
+        C = [[d[i] * c[j] + d2[i] * c2[j] for j in range(n1)] for i in range(m2)]
+        B = [[0] * n2 for _ in range(m1)]
+    def red(x):
+        if not ternary: return x % 2
+        x %= 3
+        return -1 if x == 2 else x
+    rows = [[red(v) for v in A[i] + B[i]] for i in range(m1)] + [[red(v) for v in C[i] + D[i]] for i in range(m2)]
+    m, n = m1 + m2, n1 + n2
+    rp = list(range(m)); cp = list(range(n)); rng.shuffle(rp); rng.shuffle(cp)
+    e = [rows[i][j] for i in rp for j in cp]
+    rf = [0 if i < m1 else 1 for i in rp]; cf = [0 if j < n1 else 1 for j in cp]
+    return m, n, e, rf, cf
+
+
+@check("C12")
+def c12(run):
+    quick = run.tier == "quick"
+    rng = run.rng
+    lines = []
+    # (a) every bipartition of sampled small matrices whose off-diagonal GF(2) ranks qualify
+    count = 0
+    target = 20000 if quick else 300000
+    tries = 0
+    while count < target and tries < 40 * target:
+        tries += 1
+        m, n = rng.choice([(2, 2), (2, 3), (3, 2), (3, 3), (3, 4), (4, 3), (4, 4)])
+        ternary = rng.random() < 0.6
+        e = rand_mat(rng, m, n, (1, -1) if ternary else (1,), rng.choice((0.5, 0.7, 0.9)))
+        rf = [rng.randint(0, 1) for _ in range(m)]; cf = [rng.randint(0, 1) for _ in range(n)]
+        s1 = rf.count(0) + cf.count(0); s2 = m + n - s1
+        rb, rc = block_ranks(m, n, e, rf, cf)
+        if rb + rc == 1 and s1 >= 2 and s2 >= 2:
+            kinds = ["2"]
+        elif rb == 1 and rc == 1 and s1 >= 3 and s2 >= 3:
+            kinds = ["D", "Y"]
+        elif sorted((rb, rc)) == [0, 2] and s1 >= 3 and s2 >= 3:
+            kinds = ["3"]
+        else:
+            continue
+        for k in kinds:
+            lines.append("decomp %s %d %s %s %s" % (k, 3 if ternary else 2, mat_tokens(m, n, e), " ".join(map(str, rf)), " ".join(map(str, cf))))
+            count += 1
+    for _ in range(3000 if quick else 40000):
+        kind = rng.choice(["2", "D", "Y", "3"])
+        ternary = rng.random() < 0.6
+        m, n, e, rf, cf = rand_sum_matrix(rng, "2" if kind == "2" else ("3" if kind == "3" else "D"), ternary)
+        lines.append("decomp %s %d %s %s %s" % (kind, 3 if ternary else 2, mat_tokens(m, n, e), " ".join(map(str, rf)), " ".join(map(str, cf))))
+    run.batch("decompose-recompose", lines, "plain")
+    # (b) compositions with valid and invalid special lines
+    comp = []
+    for _ in range(15000 if quick else 200000):
+        kind = rng.choice(["1", "2", "2", "D", "Y", "3"])
+        ch = rng.choice((2, 3))
+        vals = (1, -1) if ch == 3 else (1,)
+        m1, n1, m2, n2 = rng.randint(1, 4), rng.randint(1, 4), rng.randint(1, 4), rng.randint(1, 4)
+        e1 = rand_mat(rng, m1, n1, vals, 0.7); e2 = rand_mat(rng, m2, n2, vals, 0.7)
+        if kind == "1":
+            k = rng.randint(1, 3)
+            ms = [(rng.randint(0, 3), rng.randint(0, 3)) for _ in range(k)]
+            comp.append("compose 1 %d %d %s" % (ch, k, " ".join(mat_tokens(a, b, rand_mat(rng, a, b, vals, 0.6)) for a, b in ms)))
+            continue
+        def pick(lim, allow_bad=True):
+            return rng.randrange(lim)   # indices outside the operands are a precondition violation, not a 'shape' question
+        valid = rng.random() < 0.6
+        if kind == "2":
+            if rng.random() < 0.5: s = [pick(m1), -1, -1, pick(n2)]
+            else: s = [-1, pick(n1), pick(m2), -1]
+            if not valid and rng.random() < 0.3: s = [pick(m1), pick(n1), -1, -1]
+        elif kind == "D":
+            s = [pick(m1), pick(n1), pick(n1), pick(m2), pick(n2), pick(n2)]
+            if valid and n1 >= 2 and n2 >= 2 and all(0 <= x for x in s) and s[0] < m1 and s[1] < n1 and s[2] < n1 and s[3] < m2 and s[4] < n2 and s[5] < n2 and s[1] != s[2] and s[4] != s[5]:
+                eps = rng.choice(vals)
+                for i in range(m1): e1[i * n1 + s[2]] = e1[i * n1 + s[1]]
+                e1[s[0] * n1 + s[1]] = 0; e1[s[0] * n1 + s[2]] = eps
+                for i in range(m2): e2[i * n2 + s[5]] = e2[i * n2 + s[4]]
+                e2[s[3] * n2 + s[4]] = eps; e2[s[3] * n2 + s[5]] = 0
+        elif kind == "Y":
+            s = [pick(m1), pick(m1), pick(n1), pick(m2), pick(m2), pick(n2)]
+            if valid and m1 >= 2 and m2 >= 2 and all(0 <= x for x in s) and s[0] < m1 and s[1] < m1 and s[2] < n1 and s[3] < m2 and s[4] < m2 and s[5] < n2 and s[0] != s[1] and s[3] != s[4]:
+                eps = rng.choice(vals)
+                for j in range(n1): e1[s[1] * n1 + j] = e1[s[0] * n1 + j]
+                e1[s[0] * n1 + s[2]] = 0; e1[s[1] * n1 + s[2]] = eps
+                for j in range(n2): e2[s[4] * n2 + j] = e2[s[3] * n2 + j]
+                e2[s[3] * n2 + s[5]] = eps; e2[s[4] * n2 + s[5]] = 0
+        else:
+            s = [pick(m1), pick(m1), pick(n1), pick(n1), pick(n1), pick(m2), pick(m2), pick(m2), pick(n2), pick(n2)]
+            ok = (valid and m1 >= 2 and n1 >= 3 and m2 >= 3 and n2 >= 2 and all(0 <= x for x in s) and s[0] < m1 and s[1] < m1 and
+                  max(s[2:5]) < n1 and max(s[5:8]) < m2 and max(s[8:10]) < n2 and s[0] != s[1] and len(set(s[2:5])) == 3 and
+                  len(set(s[5:8])) == 3 and s[8] != s[9])
+            if ok:
+                al, be, ga, de = (rng.choice(vals) for _ in range(4))
+                for i in range(m1): e1[i * n1 + s[4]] = 0
+                e1[s[0] * n1 + s[4]] = al; e1[s[1] * n1 + s[4]] = be
+                for j in range(n2): e2[s[5] * n2 + j] = 0
+                e2[s[5] * n2 + s[8]] = ga; e2[s[5] * n2 + s[9]] = de
+                q = [rng.choice(vals) for _ in range(4)]
+                if rng.random() < 0.7: q[rng.randrange(4)] = 0
+                for (r1, r2, qi) in ((s[0], s[6], 0), (s[1], s[7], 2)):
+                    e1[r1 * n1 + s[2]] = q[qi]; e1[r1 * n1 + s[3]] = q[qi + 1]
+                    e2[r2 * n2 + s[8]] = q[qi]; e2[r2 * n2 + s[9]] = q[qi + 1]
+        comp.append("compose %s %d %s %s %s" % (kind, ch, mat_tokens(m1, n1, e1), mat_tokens(m2, n2, e2), " ".join(map(str, s))))
+    run.batch("compose-valid-and-invalid", comp, "asan")
+    return dict(rule="decompose: seeded {0,1} and {-1,0,1} matrices up to 4x4 with every kind of bipartition whose off-diagonal GF(2) ranks are "
+                "(1,0)/(0,1) [2-sum], (1,1) [Delta- and Y-sum], (0,2)/(2,0) [3-sum], plus matrices built as block sums under line shuffles; the "
+                "harness runs the library's own sequence (representatives, ternary check, epsilon/connecting search, DecomposeFirst/Second with "
+                "all optional outputs, Compose with the returned special lines). Judged: returned maps are bijections and the recomposed matrix "
+                "equals the original under them; returned components have the documented shape; the library's composition equals the "
+                "documented formula; components of TU matrices are TU. compose: operand pairs up to 4x4 in characteristic 2 and 3 with valid "
+                "and invalid special lines: result equals the formula, invalid shapes give an error and no matrix. Non-trivial = judged ok.")
